@@ -1275,3 +1275,78 @@ func localBase(fa *ssa.FieldAddr) bool {
 	al, isAlloc := v.(*ssa.Alloc)
 	return isAlloc && !al.Heap
 }
+
+// RunUnterminatedAtEnd: a scanner of the lexer — a function with a verdict that reads characters in a loop (a comment,
+// a string) — answers "unterminated" (the constant false) only where the input has ended. Answering it earlier (a
+// look-ahead search that found no terminator) leaves the rest of the construct to be lexed as ordinary template text,
+// where a directive in it can close a block: an unterminated construct is accepted.
+func (m *Model) RunUnterminatedAtEnd(s *Sink, rule string) {
+	rc := m.Method("lexer", "Lexer", "readChar")
+	if rc == nil {
+		s.Undecided(rule, "lexer.readChar", "-", "readChar not found")
+		return
+	}
+	atEnd := func(b *ssa.BasicBlock) bool {
+		for _, f := range expandFacts(factsAt(b)) {
+			bo, ok := f.Cond.(*ssa.BinOp)
+			if !ok || (bo.Op != token.EQL && bo.Op != token.NEQ) || (bo.Op == token.EQL) != f.Holds {
+				continue
+			}
+			for _, pr := range [][2]ssa.Value{{bo.X, bo.Y}, {bo.Y, bo.X}} {
+				if _, p, okP := pathOf(pr[0]); okP && p == ".char" {
+					if k, isK := pr[1].(*ssa.Const); isK && k.Value != nil && k.Int64() == 0 {
+						return true
+					}
+				}
+			}
+		}
+		return false
+	}
+	n := 0
+	for _, fn := range m.ModFns {
+		if fn.Blocks == nil || shortPkg(fnPkgPath(fn)) != "lexer" || verdictIndexAny(fn) < 0 {
+			continue
+		}
+		vi := verdictIndexAny(fn)
+		// reads in a loop
+		inLoop := false
+		for _, li := range naturalLoops(fn) {
+			for b := range li.body {
+				for _, in := range b.Instrs {
+					if c, ok := in.(*ssa.Call); ok && c.Call.StaticCallee() == rc {
+						inLoop = true
+					}
+				}
+			}
+		}
+		if !inLoop {
+			continue
+		}
+		bad, nFalse := "", 0
+		for _, b := range fn.Blocks {
+			ret, ok := b.Instrs[len(b.Instrs)-1].(*ssa.Return)
+			if !ok || vi >= len(ret.Results) {
+				continue
+			}
+			k, isK := ret.Results[vi].(*ssa.Const)
+			if !isK || k.Value == nil || constant.BoolVal(k.Value) {
+				continue
+			}
+			nFalse++
+			if !atEnd(b) && bad == "" {
+				bad = m.InstrPos(ret)
+			}
+		}
+		if nFalse == 0 {
+			continue
+		}
+		n++
+		key := fmt.Sprintf("%s|\"unterminated\" is answered only at the end of the input", fnKey(fn))
+		if bad == "" {
+			s.OK(rule, key, m.Pos(fn.Pos()), "every `return false` lies where l.char == 0")
+		} else {
+			s.Violation(rule, key, bad, "%s answers \"unterminated\" at %s without the input having ended (the current character is not known to be 0 there): what follows the opening of the construct is then lexed as ordinary template text — a directive in it closes the enclosing block, and a template with an unterminated construct is accepted", fnKey(fn), bad)
+		}
+	}
+	s.Note(rule, "scanners with an unterminated verdict", "-", "%d", n)
+}
